@@ -15,7 +15,7 @@
 //	           original safemap.go (constants 1000/10000), driven with macro operations
 //	queue/… ring/… set/…   plain sequential types, in-process BFS
 //
-// Reference models are plain slices/maps (models.go); they share no code with go-zero.
+// Reference models are plain slices/maps written next to each driver; they share no code with go-zero.
 package main
 
 import (
